@@ -592,7 +592,7 @@ def uci_pv_part(chk, wd, pid, fens, rnd, n):
         f = fens[(i * 13) % len(fens)]
         pc = {"kind": "position", "line": "position fen " + f, "base": "fen", "fen": list(f), "pos": uci_driver.fen_to_pos(f), "moves": [], "valid": True}
         go = rnd.choice(["go depth 2", "go depth 3", "go depth 4", "go movetime 150"])
-        sessions.append((400000 + i, True, "immediate", [pc, {"kind": "go", "line": go}, {"kind": "wait", "line": "", "timeout": 20.0}, {"kind": "quit", "line": "quit"}]))
+        sessions.append((400000 + i, True, "immediate", [pc, {"kind": "go", "line": go}, {"kind": "wait", "line": "", "timeout": 60.0}, {"kind": "quit", "line": "quit"}]))
     traces = ucichecks.run_sessions(cli, wd, "ucipv", sessions, parallel=6)
     res = tlc_many([dict(module="UciTrace", trace=t, xmx="3g", timeout=3000) for t in traces])
     chk.add_tlc(res)
